@@ -30,7 +30,7 @@ WEIGHTS = {
 
 def cases(tier, seed):
     rng = random.Random(f"C16/{seed}")
-    nmax, count = (7, 1200) if tier == "quick" else (8, 8000)
+    nmax, count = (7, 2400) if tier == "quick" else (8, 8000)
     cl = [("gadget", 5), ("inputs", 3), ("rand", 3), ("dense-neg", 1), ("overlap-maa", 0.3)]
     nets = gen.corpus() + [gen.draw(rng, cl, nmax) for _ in range(count)] + [gen.model_net(f) for f in gen.models_up_to(10 if tier == "quick" else 16)]
     kinds = list(WEIGHTS)
